@@ -60,7 +60,13 @@ impl Ctx {
             return r.clone();
         }
         let r = Arc::new(self.run(worker, program, &World::reference(), &Plan::new()));
-        self.refs.lock().unwrap().insert(key, r.clone());
+        let mut m = self.refs.lock().unwrap();
+        // bounded: generated programs are used once; without a bound a thorough tier
+        // keeps ~10^5 transcripts with event logs per worker alive
+        if m.len() >= 3000 {
+            m.clear();
+        }
+        m.insert(key, r.clone());
         r
     }
 }
@@ -211,6 +217,9 @@ pub fn out_dir(ctx: &Ctx) -> PathBuf {
     std::env::var("SEEDSIM_OUT_DIR").map(PathBuf::from).unwrap_or_else(|_| ctx.verif_dir.clone())
 }
 
+// run indices below this keep their full case record in the worker output (evidence samples)
+const SAMPLE_WINDOW: u64 = 400;
+
 pub struct Summary {
     pub violations: u64,
     pub exit_code: i32,
@@ -249,10 +258,14 @@ pub fn run_property(ctx: &Ctx, prop: &dyn Property) -> Summary {
         if pid == 0 {
             crate::exec::start_watchdog();
             let path = res_dir.join(format!("r{wk}.jsonl"));
+            let dump_all = std::env::var("SEEDSIM_DUMP").is_ok();
             let mut f = std::io::BufWriter::new(std::fs::File::create(&path).expect("cannot create result file"));
             let mut i = wk as u64;
             let stop_flag = res_dir.join("stop-after-hangs");
             let mut hangs = 0u32;
+            // full case records are only kept where the parent needs them: early indices
+            // (evidence samples) and the first few violations of each signature
+            let mut sig_seen: BTreeMap<String, u32> = BTreeMap::new();
             while i < n {
                 let mut rng = Rng::for_run(ctx.seed, label, i);
                 let case = prop.gen_case(ctx, wk, &mut rng, i);
@@ -269,7 +282,18 @@ pub fn run_property(ctx: &Ctx, prop: &dyn Property) -> Summary {
                         let _ = std::fs::write(&stop_flag, b"1");
                     }
                 }
-                let line = json!({"i": i, "case": case.to_json(), "out": out.to_json(), "runs": ctx.child_runs.swap(0, Ordering::Relaxed)});
+                let mut keep_case = i < SAMPLE_WINDOW || dump_all;
+                if let Some(v) = &out.violation {
+                    let c = sig_seen.entry(v.signature.clone()).or_insert(0);
+                    *c += 1;
+                    if *c <= 3 {
+                        keep_case = true;
+                    }
+                }
+                let mut line = json!({"i": i, "key": case.key(), "ph": fnv1a(&case.program), "out": out.to_json(), "runs": ctx.child_runs.swap(0, Ordering::Relaxed)});
+                if keep_case {
+                    line["case"] = case.to_json();
+                }
                 use std::io::Write;
                 writeln!(f, "{line}").expect("cannot write result");
                 i += nw as u64;
@@ -290,27 +314,20 @@ pub fn run_property(ctx: &Ctx, prop: &dyn Property) -> Summary {
         }
     }
     crate::exec::start_watchdog();
-    let mut results: Vec<Option<(Case, Outcome)>> = (0..n).map(|_| None).collect();
-    let mut worker_runs = 0u64;
+    // streaming merge: worker k's file holds indices k, k+W, k+2W, ... in order
+    let mut readers: Vec<std::io::Lines<std::io::BufReader<std::fs::File>>> = vec![];
     for wk in 0..nw {
+        use std::io::BufRead;
         let path = res_dir.join(format!("r{wk}.jsonl"));
-        let text = std::fs::read_to_string(&path).unwrap_or_default();
-        for line in text.lines() {
-            let j: J = match serde_json::from_str(line) {
-                Ok(j) => j,
-                Err(_) => continue,
-            };
-            let i = j.get("i").and_then(J::as_u64).unwrap_or(u64::MAX);
-            worker_runs += j.get("runs").and_then(J::as_u64).unwrap_or(0);
-            if let (Some(c), Some(o)) = (j.get("case").and_then(Case::from_json), j.get("out").and_then(Outcome::from_json)) {
-                if (i as usize) < results.len() {
-                    results[i as usize] = Some((c, o));
-                }
+        match std::fs::File::open(&path) {
+            Ok(f) => readers.push(std::io::BufReader::with_capacity(1 << 16, f).lines()),
+            Err(e) => {
+                eprintln!("HARNESS-ERROR: cannot open result file {}: {e}", path.display());
+                std::process::exit(2);
             }
         }
-        let _ = std::fs::remove_file(&path);
     }
-    ctx.child_runs.fetch_add(worker_runs, Ordering::Relaxed);
+    let mut worker_runs = 0u64;
 
     // aggregate in index order
     let known = load_known(&ctx.verif_dir);
@@ -324,15 +341,45 @@ pub fn run_property(ctx: &Ctx, prop: &dyn Property) -> Summary {
     let mut io_events: u64 = 0;
     let mut samples: Vec<J> = vec![];
     let mut viols: Vec<(u64, Case, Violation)> = vec![];
+    let mut all_viols = 0u64;
+    let mut viol_sigs: BTreeMap<String, u64> = BTreeMap::new();
     let mut known_seen: BTreeMap<String, u64> = BTreeMap::new();
     let mut digest: u64 = 0xcbf2_9ce4_8422_2325;
-    for (i, slot) in results.into_iter().enumerate() {
-        let (case, out) = slot.expect("missing result");
-        digest = digest.rotate_left(5) ^ case.key() ^ fnv1a(out.to_json().to_string().as_bytes());
-        if let Ok(f) = std::env::var("SEEDSIM_DUMP") {
+    for i in 0..n as usize {
+        let line = match readers[i % nw].next() {
+            Some(Ok(l)) => l,
+            _ => {
+                eprintln!("HARNESS-ERROR: missing result for run index {i}");
+                std::process::exit(2);
+            }
+        };
+        let j: J = match serde_json::from_str(&line) {
+            Ok(j) => j,
+            Err(e) => {
+                eprintln!("HARNESS-ERROR: unreadable result for run index {i}: {e}");
+                std::process::exit(2);
+            }
+        };
+        if j.get("i").and_then(J::as_u64) != Some(i as u64) {
+            eprintln!("HARNESS-ERROR: result files out of order at run index {i}");
+            std::process::exit(2);
+        }
+        worker_runs += j.get("runs").and_then(J::as_u64).unwrap_or(0);
+        let key = j.get("key").and_then(J::as_u64).unwrap_or(0);
+        let prog_hash = j.get("ph").and_then(J::as_u64).unwrap_or(0);
+        let out = match j.get("out").and_then(Outcome::from_json) {
+            Some(o) => o,
+            None => {
+                eprintln!("HARNESS-ERROR: malformed outcome for run index {i}");
+                std::process::exit(2);
+            }
+        };
+        let case: Option<Case> = j.get("case").and_then(Case::from_json);
+        digest = digest.rotate_left(5) ^ key ^ fnv1a(out.to_json().to_string().as_bytes());
+        if let (Ok(f), Some(case)) = (std::env::var("SEEDSIM_DUMP"), case.as_ref()) {
             use std::io::Write;
             if let Ok(mut fh) = std::fs::OpenOptions::new().create(true).append(true).open(&f) {
-                let _ = writeln!(fh, "{} {:016x} {} {}", i, case.key(), case.plan.encode_items(), out.to_json());
+                let _ = writeln!(fh, "{} {:016x} {} {}", i, key, case.plan.encode_items(), out.to_json());
                 if std::env::var("SEEDSIM_DUMP_CASE").ok().and_then(|v| v.parse::<usize>().ok()) == Some(i) {
                     let _ = std::fs::write(format!("{f}.case{i}.json"), case.to_json().to_string());
                 }
@@ -353,13 +400,13 @@ pub fn run_property(ctx: &Ctx, prop: &dyn Property) -> Summary {
         if let Some(s) = &out.skipped {
             *skipped.entry(s.clone()).or_insert(0) += 1;
         }
-        programs.insert(fnv1a(&case.program));
+        programs.insert(prog_hash);
         if out.nontrivial && out.skipped.is_none() {
-            distinct.insert(case.key());
+            distinct.insert(key);
         }
         shapes.insert(out.history_shape);
         io_events += out.io_events;
-        if samples.len() < 5 && out.nontrivial && out.skipped.is_none() && (i % 7 == 0 || samples.is_empty()) {
+        if let (true, Some(case)) = (samples.len() < 5 && out.nontrivial && out.skipped.is_none() && (i % 7 == 0 || samples.is_empty()), case.as_ref()) {
             let mut prog = String::from_utf8_lossy(&case.program).to_string();
             if prog.chars().count() > 600 {
                 prog = prog.chars().take(600).collect();
@@ -372,16 +419,33 @@ pub fn run_property(ctx: &Ctx, prop: &dyn Property) -> Summary {
             }));
         }
         if let Some(v) = out.violation {
-            viols.push((i as u64, case, v));
+            all_viols += 1;
+            *viol_sigs.entry(v.signature.clone()).or_insert(0) += 1;
+            if let Some(case) = case {
+                viols.push((i as u64, case, v));
+            }
         }
     }
+    drop(readers);
+    for wk in 0..nw {
+        let _ = std::fs::remove_file(res_dir.join(format!("r{wk}.jsonl")));
+    }
+    ctx.child_runs.fetch_add(worker_runs, Ordering::Relaxed);
 
     // known findings: match by signature
+    let is_known = |sig: &str| known.iter().any(|k| k.property == label && k.status == "open" && k.signature == sig);
+    let mut nviol = 0u64;
+    for (sig, cnt) in &viol_sigs {
+        if is_known(sig) {
+            *known_seen.entry(sig.clone()).or_insert(0) += cnt;
+        } else {
+            nviol += cnt;
+        }
+    }
+    let _ = all_viols;
     let mut new_viols: Vec<(u64, Case, Violation)> = vec![];
     for (i, c, v) in viols {
-        if let Some(k) = known.iter().find(|k| k.property == label && k.status == "open" && k.signature == v.signature) {
-            *known_seen.entry(k.signature.clone()).or_insert(0) += 1;
-            let _ = k;
+        if is_known(&v.signature) {
             continue;
         }
         new_viols.push((i, c, v));
@@ -394,12 +458,10 @@ pub fn run_property(ctx: &Ctx, prop: &dyn Property) -> Summary {
 
     let total_skipped: u64 = skipped.values().sum();
     let mut exit_code = 0;
-    let mut nviol = 0u64;
 
     // report at most 3 violations with distinct signatures, lowest index first
     let mut reported: BTreeSet<String> = BTreeSet::new();
     for (i, case, v) in &new_viols {
-        nviol += 1;
         if reported.contains(&v.signature) || reported.len() >= 3 {
             continue;
         }
